@@ -23,9 +23,12 @@ import (
 	"github.com/cosmos/cosmos-sdk/codec"
 	"github.com/cosmos/cosmos-sdk/runtime"
 	sdk "github.com/cosmos/cosmos-sdk/types"
+	gogoproto "github.com/cosmos/gogoproto/proto"
+	transfertypes "github.com/cosmos/ibc-go/v8/modules/apps/transfer/types"
 
 	orbiter "github.com/noble-assets/orbiter/v2"
 	"github.com/noble-assets/orbiter/v2/testutil"
+	"github.com/noble-assets/orbiter/v2/types/core"
 )
 
 func init() { testutil.SetSDKConfig() }
@@ -47,6 +50,10 @@ var (
 // AssumeFalse is the panic value used natively when an Assume does not hold on the witness.
 type AssumeFalse struct{}
 
+// Diverged is the panic value used natively when the native run asks for a draw the witness does not have:
+// the native path differs from the symbolic one (never counted as a confirmation of anything).
+type Diverged struct{ Msg string }
+
 // Reset installs a witness (native side only).
 func Reset(w []Draw, t string, b map[string]int) {
 	tape, pos, Failed, tier, bounds = w, 0, nil, t, b
@@ -54,12 +61,12 @@ func Reset(w []Draw, t string, b map[string]int) {
 
 func next(label, kind string) string {
 	if pos >= len(tape) {
-		panic(fmt.Sprintf("verif: witness exhausted at draw %d (%s)", pos, label))
+		panic(Diverged{fmt.Sprintf("witness exhausted at draw %d (%s)", pos, label)})
 	}
 	d := tape[pos]
 	pos++
 	if d.Label != label || d.Kind != kind {
-		panic(fmt.Sprintf("verif: draw %d is %s/%s in the witness but %s/%s natively (path diverged)", pos-1, d.Label, d.Kind, label, kind))
+		panic(Diverged{fmt.Sprintf("draw %d is %s/%s in the witness but %s/%s natively", pos-1, d.Label, d.Kind, label, kind)})
 	}
 	return d.Value
 }
@@ -158,4 +165,67 @@ func RealCodec() codec.Codec {
 		realCodec = cfg.Codec
 	}
 	return realCodec
+}
+
+// ---- Z: unbounded specification integers ----------------------------------------------------------
+// Reference formulas (e.g. 10000*(c+1)) must not themselves hit math.Int's 256-bit panic, so they are
+// written with Z: *big.Int natively, an SMT Int symbolically (all functions below are intercepted).
+
+type Z struct{ v *big.Int }
+
+func ZOf(x math.Int) Z      { return Z{x.BigInt()} }
+func ZInt(x int64) Z        { return Z{big.NewInt(x)} }
+func ZU64(x uint64) Z       { return Z{new(big.Int).SetUint64(x)} }
+func ZAdd(a, b Z) Z         { return Z{new(big.Int).Add(a.v, b.v)} }
+func ZSub(a, b Z) Z         { return Z{new(big.Int).Sub(a.v, b.v)} }
+func ZMul(a, b Z) Z         { return Z{new(big.Int).Mul(a.v, b.v)} }
+func ZLt(a, b Z) bool       { return a.v.Cmp(b.v) < 0 }
+func ZLe(a, b Z) bool       { return a.v.Cmp(b.v) <= 0 }
+func ZEq(a, b Z) bool       { return a.v.Cmp(b.v) == 0 }
+func ZPow2(n uint) Z        { return Z{new(big.Int).Lsh(big.NewInt(1), n)} }
+
+// ZFloorDiv is floor(a/k) for k > 0 (Euclidean division, as SMT-LIB div).
+func ZFloorDiv(a Z, k int64) Z {
+	q, m := new(big.Int).DivMod(a.v, big.NewInt(k), new(big.Int))
+	_ = m
+	return Z{q}
+}
+
+// ---- codec blobs ----------------------------------------------------------------------------------------
+// Symbolically an encoded value is an abstract blob with decode(encode(x)) = x (the codecs are library code,
+// summarised, DESIGN.md §2.5). Natively the real codecs run.
+
+// SDKContext unwraps the context returned by NewEnv (symbolically: an opaque token).
+func SDKContext(ctx context.Context) sdk.Context { return sdk.UnwrapSDKContext(ctx) }
+
+// EncodeICS20 is the ICS-20 packet data encoding (JSON).
+func EncodeICS20(d transfertypes.FungibleTokenPacketData) []byte { return d.GetBytes() }
+
+// Garbage is packet data that is not ICS-20 JSON.
+func Garbage() []byte { return []byte("\x00not json") }
+
+// EncodeMemo renders {"orbiter": <payload>} plus extraRootKeys further root keys.
+func EncodeMemo(w *core.PayloadWrapper, extraRootKeys int) string {
+	bz, err := RealCodec().MarshalJSON(w)
+	if err != nil {
+		panic(Diverged{"memo cannot be marshalled natively: " + err.Error()})
+	}
+	s := string(bz)
+	for k := 0; k < extraRootKeys; k++ {
+		s = s[:len(s)-1] + fmt.Sprintf(",\"extra%d\":1}", k)
+	}
+	return s
+}
+
+// DecodeJSON is ProtoCodec.UnmarshalJSON (with interface unpacking).
+func DecodeJSON(bz []byte, m gogoproto.Message) error { return RealCodec().UnmarshalJSON(bz, m) }
+
+// ZeroBytes draws a byte slice of arbitrary length in [0,maxLen] whose content is all zero (only its
+// length is symbolic: for code that reads nothing but len).
+func ZeroBytes(label string, maxLen int) []byte {
+	n := int(num(next(label, "len")).Int64())
+	if n > maxLen {
+		panic("verif: witness length beyond bound")
+	}
+	return make([]byte, n)
 }
